@@ -229,6 +229,8 @@ class ConvSim(WorldBase):
                         if g.random() < dens:
                             self.uniq += 1
                             v = self.uniq + (0.5 if fl else 0)
+                            if default != 0 and g.random() < 0.3:
+                                v = 0            # a literal zero is an ordinary value when the empty value is not 0
                             out.append(v if v != default else v + 1)
                         else:
                             out.append(default)
